@@ -3,6 +3,8 @@ import StorageModel.C10.Listener
 import StorageModel.C10.TreeCursor
 import StorageModel.C10.Dump
 import StorageModel.C10.Pipeline
+import StorageModel.C10.Session
+import StorageModel.Generated.C10Sites
 /- model driver for C10: `run spec` reads case lines on stdin and prints one output line per case
    (spec = false: the engine model's output; spec = true: the spec's verdict). -/
 namespace StorageModel.Driver.C10
@@ -205,6 +207,36 @@ def stepQ (spec : Bool) (schema seek rowsS w : String) : String :=
       s!"{pre} res={kind} typed=- eval=-"
     | .panic site => s!"{pre} res=panic:{site.replace " " "_"} typed=- eval=-"
 
+/-! ### H cases: a history of ast.Parse calls in one process -/
+
+def resString : Outcome T → String
+  | .ok t => s!"ok:{traceString t}"
+  | .err e =>
+    if e == "syntax" then "syn" else if e == "listener" then "lerr"
+    else if e == "symbol validation" then "verr" else "terr"
+  | .panic site => s!"panic:{site.replace " " "_"}"
+
+/-- model: `parseHistory` with the listener policy regenerated from ast/helper.go (the callbacks of
+    recovered trees are not known to the driver: `[]`; with a listener per call they are irrelevant —
+    `parse_history_independent`).  spec: every text answered as if it were parsed alone.  A text written
+    `k~<hex>` is parsed against the k-th of the `~`-separated schemas. -/
+def stepH (spec : Bool) (schemas : String) (ws : List String) : String :=
+  let tabs := (schemas.splitOn "~").map fun sc => mkTab (parseTables sc) 8 0
+  let tab0 := tabs.headD (mkTab [] 0 0)
+  let decode (w : String) : Option Call :=
+    match w.splitOn "~" with
+    | [t] => (decodeText t).map fun x => ⟨tab0, x, []⟩
+    | [k, t] =>
+      match k.toNat?, decodeText t with
+      | some i, some x => some ⟨tabs.getD i tab0, x, []⟩
+      | _, _ => none
+    | _ => none
+  match ws.mapM decode with
+  | none => "bad-case"
+  | some calls =>
+    let rs := if spec then standalone calls else parseHistory Generated.C10.astParseListenerPerCall .init calls
+    "h=" ++ "|".intercalate (rs.map resString)
+
 def treeLine (vals : List Bytes) (after : List Bool) (size : Nat) : String :=
   let vs := if vals.isEmpty then "-" else ".".intercalate (vals.map Bytes.toWire)
   let as := if after.isEmpty then "-" else bits after
@@ -234,6 +266,7 @@ def step (line : String) : String :=
     | none => "bad-case"
   | ["E", evs] => stepE evs
   | ["Q", schema, seek, rows, w] => stepQ false schema seek rows w
+  | "H" :: schema :: ws => stepH false schema ws
   | ["B", _, _] => "nopanic"
   | ["O", _, _] => "nopanic"
   | _ => "bad-case"
@@ -249,6 +282,7 @@ def specStep (line : String) : String :=
     | none => "bad-case"
   | ["E", _] => "nopanic"
   | ["Q", schema, seek, rows, w] => stepQ true schema seek rows w
+  | "H" :: schema :: ws => stepH true schema ws
   | ["B", _, _] => "nopanic"
   | ["O", _, _] => "nopanic"
   | _ => "bad-case"
